@@ -349,7 +349,7 @@ def rule_segment_plumbing(res, rid, m):
                 for i, prm in enumerate(fn.params):
                     for x in fn.nodes():
                         if x.get("k") == "bin" and x.get("op") in ("==", "!="):
-                            rd = reads(facts.expand(fn, x))
+                            rd = reads(facts.inline_accessors(fb, facts.expand(fn, x)))
                             if prm["decl"] in rd and fld in rd:
                                 idx = i
             if idx is None:
@@ -871,7 +871,7 @@ def rule_modular_successor(res, rid, m):
     for x in f.nodes():
         if x.get("k") != "bin" or x.get("op") not in ("==", "!="):
             continue
-        sides = (x["l"], x["r"])
+        sides = (facts.inline_accessors(m.fb, x["l"]), facts.inline_accessors(m.fb, x["r"]))
         for a, b in (sides, sides[::-1]):
             da, _ = depends(f, a)
             db, _ = depends(f, b)
@@ -1087,8 +1087,8 @@ def rule_accept_guard(res, rid, m):
             hit = None
             for a in atoms:
                 if a[0] == "cmp" and a[2] == "==":
-                    dl, _ = depends(f, a[4])
-                    dr, _ = depends(f, a[5])
+                    dl, _ = depends(f, facts.inline_accessors(fb, a[4]))
+                    dr, _ = depends(f, facts.inline_accessors(fb, a[5]))
                     if (fld in dl and dr & params) or (fld in dr and dl & params):
                         hit = a
             res.check(hit is not None, rid, "addSegment:accept-needs-%s%s" % (what.replace(" ", "-"), tag), r.get("loc"),
@@ -1101,8 +1101,14 @@ def rule_accept_guard(res, rid, m):
         res.check(hit is not None, rid, "addSegment:accept-needs-transition%s" % tag, r.get("loc"), "accept path is guarded by isValidSegmentType(type)",
                   "a segment can be accepted without a valid segment-type transition")
         # every accepting path performs the sibling state updates: counter advanced exactly once, segment state stored
-        incs = [x for (d, kind), x in ws if d == role["counter"] and kind in ("pre++", "post++")]
-        other_cnt = [x for (d, kind), x in ws if d == role["counter"] and kind not in ("pre++", "post++")]
+        def is_successor(x):
+            """++counter, or counter = counter + 1 (as a linear form; the conversion to the 16-bit member wraps it)"""
+            def syms(z):
+                return "cur" if z.get("k") == "member" and z.get("field") == role["counter"] else None
+            form = _linear(f, x["r"], syms) if x.get("k") == "assign" else None
+            return form is not None and form.get("cur") == 1 and form.get(1, 0) == 1 and set(form) <= {"cur", 1}
+        incs = [x for (d, kind), x in ws if d == role["counter"] and (kind in ("pre++", "post++") or (kind == "assign" and is_successor(x)))]
+        other_cnt = [x for (d, kind), x in ws if d == role["counter"] and not (kind in ("pre++", "post++") or (kind == "assign" and is_successor(x)))]
         res.check(len(incs) == 1 and not other_cnt, rid, "addSegment:accept-advances-counter%s" % tag, r.get("loc"),
                   "the stored counter is advanced exactly once on this accepting path",
                   "an accepting path of addSegment advances the stored sequence counter %d times (%s): the next well-formed segment is then rejected as "
@@ -1341,6 +1347,10 @@ def _linear(fn, e, syms, depth=4):
         if len(ds) == 1:
             return _linear(fn, ds[0], syms, depth - 1)
         return None
+    if e.get("k") == "call" and depth > 0:
+        y = facts.inline_accessor(getattr(fn, "fb", None), e)  # a one-line accessor stands for its expression
+        if y is not None:
+            return _linear(fn, y, syms, depth - 1)
     if e.get("k") == "bin" and e.get("op") in ("+", "-"):
         a, b = _linear(fn, e["l"], syms, depth), _linear(fn, e["r"], syms, depth)
         if a is None or b is None:
@@ -1436,8 +1446,8 @@ def rule_reject_reasons(res, rid, m):
         key = None
         why = None
         if a[0] == "cmp":
-            dl, cl = depends(f, a[4])
-            dr, cr = depends(f, a[5])
+            dl, cl = depends(f, facts.inline_accessors(m.fb, a[4]))
+            dr, cr = depends(f, facts.inline_accessors(m.fb, a[5]))
             for what in ("version", "message type", "counter"):
                 fld = role[what]
                 if a[2] == "!=" and ((fld in dl and dr & params) or (fld in dr and dl & params)):
